@@ -8,7 +8,9 @@ MANIFEST = dict(
          "accounting invariant; saturating adds modelled); C12_restart_keeps_counted: a restart restores exactly the "
          "persisted control.  The model (insert, persist-on-approve, restore) is run against VelocityControl and "
          "against Node::add_keysend / check_onchain_tx / restore_node on the same histories on every run, and a "
-         "sliding-window monitor checks the property itself on the implementation's answers.",
+         "sliding-window monitor checks the property itself on the implementation's answers; for the fee side as the "
+         "daemon reaches it (SignWithdrawal through the wire codec and RootHandler) a monitor checks that the fee control "
+         "books what the signed transaction really gives away (true input values from the previous transactions).",
     design="§4 C12",
     note=lib.TB + "Modelled, not verified: serde round trip of the persisted control; clock monotonicity is the "
          "property's hypothesis.",
@@ -48,6 +50,28 @@ def run(res):
             res.violation("node-level approve/restart history disagrees with Model.Velocity.vstep (correspondence velocity-node)",
                           {"correspondence": "velocity-node", "theorem": "C12_window", "case": c, "model": model},
                           has_input=False)
+    # the fee side as the daemon reaches it: SignWithdrawal through the wire codec and RootHandler (the onchain
+    # domain's handler sub-domain, true input values taken from the previous transactions): what the fee control
+    # books for a signed transaction is what that transaction gives away -- the amounts C12_window sums are the
+    # amounts actually spent
+    hand, hand_aborted = [], []
+    n_hand = 240 if quick else 3000
+    for k in range(3 if quick else 10):
+        try:
+            r = lib.run_harness("onchain", "handler", res.seed * 1000 + 500 + k, n_hand // (3 if quick else 10), res.tier)
+            hand += r["CASE"]
+        except lib.Fail as e:
+            if "build failed" in str(e):
+                raise
+            hand_aborted.append(str(e)[-300:])
+    fee_mon = [c for c in hand if any("fee velocity" in m for m in c.get("monitor_violation", []))]
+    for c in fee_mon[:2]:
+        res.violation("fee velocity through SignWithdrawal (wire codec + RootHandler): " +
+                      "; ".join(m for m in c["monitor_violation"] if "fee velocity" in m)[:600],
+                      {"domain": "onchain-handler", "seed": res.seed,
+                       "case": {k: v for k, v in c.items() if not k.startswith("coq")}})
+    for e in hand_aborted[:1]:
+        res.violation("the signer process went down while handling SignWithdrawal", {"domain": "onchain-handler", "error": e})
     allc = bcases + ncases
     nontrivial = set()
     for c in bcases:
@@ -63,14 +87,17 @@ def run(res):
         "distinct_nontrivial": len(nontrivial),
         "rule": "bare: random (buckets, interval, limit) x <=14 inserts with gaps at 0, interval-1, interval, "
                 "(nb-1)*interval, nb*interval(+1) and amounts at 0, 1, limit/2(+1), limit, limit+1, 2^64-2, 2^64-1; "
-                "node: add_keysend (payment control) and check_onchain_tx (fee control) under a ManualClock with restarts from the store in between, projected per control; a case is "
+                "node: add_keysend (payment control) and check_onchain_tx (fee control) under a ManualClock with restarts from the store in between, projected per control; "
+                "handler: SignWithdrawal messages (1-3 wallet inputs of every script kind, honest and lying witness_utxo / previous transactions) through the wire codec and RootHandler, "
+                "the booked fee compared with true inputs minus beneficial outputs; a case is "
                 "non-trivial when it has both an approved and a refused insert (node: and a restart); "
                 "distinct by full operation list",
         "samples": [{k: v for k, v in bcases[0].items() if k != "coq"},
                     {k: v for k, v in ncases[0].items() if not k.startswith("coq")}],
         "traces_validated_against_impl": len(allc),
         "correspondence_disagreements": len(fb) + len(fn),
-        "monitor_failures": len(mon),
+        "monitor_failures": len(mon) + len(fee_mon),
+        "sign_withdrawal_requests_checked_for_fee_booking": len(hand),
         "harness_stats": bare.get("STATS", []) + node.get("STATS", []),
     })
     res.assumptions = [
